@@ -253,12 +253,15 @@ func (e *Engine) checkComputedSubjectSet(
 		WithField("computed subjectSet relation", subjectSet.Relation).
 		Trace("check computed subjectSet")
 
+	// Following a computed subject set is a hop like any other: it consumes one
+	// level of the depth budget. Without this, permissions that refer to each
+	// other in a cycle recurse without bound.
 	return e.checkIsAllowed(ctx, &relationTuple{
 		Namespace: r.Namespace,
 		Object:    r.Object,
 		Relation:  subjectSet.Relation,
 		Subject:   r.Subject,
-	}, restDepth, false)
+	}, restDepth-1, false)
 }
 
 // checkTupleToSubjectSet rewrites the relation tuple to use the subject-set relation.
